@@ -1,19 +1,14 @@
 /-
-Translator leg: the SHAPE of the API-level logic in src/srp_internal.rs, src/srp_internal_client.rs, src/normalized_string.rs.  For every function tools/gen_constants.py lists, on every run, the ordered
-calls, the control-flow keywords (with `?`) and the comparison / boolean operators — not the text (locals may be renamed, expressions
-reformatted), but enough that "compare, THEN draw the new challenge, unconditionally", "refuse iff the proofs differ", "read_exact before
-decrypt" cannot silently become something else.  The model functions were written against exactly these shapes.
+Translator leg: the SHAPE of the functions of srp_internal.rs.  For every function tools/gen_constants.py lists, on every run, the ordered calls, the
+control-flow keywords (with `?`) and the comparison / boolean operators — not the text (locals may be renamed, expressions reformatted),
+but enough that "compare, THEN draw the new challenge, unconditionally", "refuse iff the proofs differ", "read_exact before decrypt" cannot
+silently become something else.  The model functions were written against exactly these shapes.  (Generated once by tools/mk_shape_modules.py.)
 -/
 import WowSrp.Gen.Facts
 namespace WowSrp
 
-def expected_shapeSrpInternal : List (List String) := [["calculate_x: calls=Sha1::new,chain_update,as_ref,chain_update,chain_update,as_ref,finalize,Sha1::new,chain_update,as_le_bytes,chain_update,finalize,Sha1Hash::from_le_bytes,into; control=; ops=", "calculate_password_verifier: calls=calculate_x,as_bigint,Generator::default,to_bigint,LargeSafePrime::default,to_bigint,modpow,to_padded_32_byte_array_le; control=; ops=", "calculate_server_public_key: calls=Generator::default,to_bigint,LargeSafePrime::default,to_bigint,KValue::bigint,as_bigint,modpow,as_bigint,PublicKey::try_from_bigint; control=; ops=", "calculate_u: calls=Sha1::new,chain_update,as_le_bytes,chain_update,as_le_bytes,finalize,Sha1Hash::from_le_bytes,into; control=; ops=", "calculate_S: calls=LargeSafePrime::default,to_bigint,as_bigint,as_bigint,modpow,as_bigint,modpow,as_bigint,into; control=; ops=", "calculate_interleaved: calls=as_equal_slice,iter,step_by,enumerate,Sha1::new,chain_update,len,finalize,iter,skip,step_by,enumerate,Sha1::new,chain_update,len,finalize,iter,zip,iter,enumerate,SessionKey::from_le_bytes; control=for,for,for; ops=", "calculate_session_key: calls=calculate_u,allow,calculate_S,calculate_interleaved; control=; ops=", "calculate_server_proof: calls=Sha1::new,chain_update,as_le_bytes,chain_update,as_le_bytes,chain_update,as_le_bytes,finalize,Proof::from_le_bytes,into; control=; ops=", "calculate_xor_hash: calls=Sha1::new,chain_update,as_le_bytes,finalize,Sha1::new,chain_update,as_u8,finalize,iter,enumerate,Sha1Hash::from_le_bytes; control=for; ops=", "calculate_client_proof: calls=Sha1::new,chain_update,as_ref,finalize,Sha1::new,chain_update,chain_update,chain_update,as_le_bytes,chain_update,as_le_bytes,chain_update,as_le_bytes,chain_update,as_le_bytes,finalize,into,Proof::from_le_bytes; control=; ops=", "calculate_reconnect_proof: calls=Sha1::new,chain_update,as_ref,chain_update,as_le_bytes,chain_update,as_le_bytes,chain_update,as_le_bytes,finalize,Proof::from_le_bytes,into; control=; ops=", "calculate_client_public_key: calls=to_bigint,modpow,as_bigint,to_bigint,PublicKey::client_try_from_bigint; control=; ops=", "calculate_client_S: calls=KValue::bigint,as_bigint,to_bigint,modpow,as_bigint,to_bigint,modpow,as_bigint,as_bigint,as_bigint,to_bigint,SKey::from_le_bytes,to_padded_32_byte_array_le; control=; ops=", "calculate_client_proof_with_custom_value: calls=calculate_xor_hash,Sha1::new,chain_update,as_ref,finalize,Sha1::new,chain_update,as_le_bytes,chain_update,chain_update,as_le_bytes,chain_update,as_le_bytes,chain_update,as_le_bytes,chain_update,as_le_bytes,finalize,into,Proof::from_le_bytes; control=; ops=", "new: calls=inner,len,is_empty,chars,enumerate,is_ascii,is_ascii_control,NormalizedStringError::CharacterNotAllowed,to_ascii_uppercase,len,inner,as_ref; control=if,return,for,if,return; ops=<,>,>,||,||", "inner: calls=len,is_empty,chars,enumerate,is_ascii,is_ascii_control,NormalizedStringError::CharacterNotAllowed,to_ascii_uppercase,len; control=if,return,for,if,return; ops=>,||,||", "from_str: calls=Self::new; control=; ops=", "from_string: calls=Self::new,into; control=; ops=", "try_from: calls=Self::new; control=; ops=", "try_from: calls=Self::new; control=; ops=", "fmt: calls=write_str,as_ref; control=; ops=", "as_ref: calls=core::str::from_utf8,unwrap; control=; ops="]]
+def expected_shapeSrpInternal : List (List String) := [["calculate_x: calls=Sha1::new,chain_update,as_ref,chain_update,chain_update,as_ref,finalize,Sha1::new,chain_update,as_le_bytes,chain_update,finalize,Sha1Hash::from_le_bytes,into; control=; ops=", "calculate_password_verifier: calls=calculate_x,as_bigint,Generator::default,to_bigint,LargeSafePrime::default,to_bigint,modpow,to_padded_32_byte_array_le; control=; ops=", "calculate_server_public_key: calls=Generator::default,to_bigint,LargeSafePrime::default,to_bigint,KValue::bigint,as_bigint,modpow,as_bigint,PublicKey::try_from_bigint; control=; ops=", "calculate_u: calls=Sha1::new,chain_update,as_le_bytes,chain_update,as_le_bytes,finalize,Sha1Hash::from_le_bytes,into; control=; ops=", "calculate_S: calls=LargeSafePrime::default,to_bigint,as_bigint,as_bigint,modpow,as_bigint,modpow,as_bigint,into; control=; ops=", "calculate_interleaved: calls=as_equal_slice,iter,step_by,enumerate,Sha1::new,chain_update,len,finalize,iter,skip,step_by,enumerate,Sha1::new,chain_update,len,finalize,iter,zip,iter,enumerate,SessionKey::from_le_bytes; control=for,for,for; ops=", "calculate_session_key: calls=calculate_u,allow,calculate_S,calculate_interleaved; control=; ops=", "calculate_server_proof: calls=Sha1::new,chain_update,as_le_bytes,chain_update,as_le_bytes,chain_update,as_le_bytes,finalize,Proof::from_le_bytes,into; control=; ops=", "calculate_xor_hash: calls=Sha1::new,chain_update,as_le_bytes,finalize,Sha1::new,chain_update,as_u8,finalize,iter,enumerate,Sha1Hash::from_le_bytes; control=for; ops=", "calculate_client_proof: calls=Sha1::new,chain_update,as_ref,finalize,Sha1::new,chain_update,chain_update,chain_update,as_le_bytes,chain_update,as_le_bytes,chain_update,as_le_bytes,chain_update,as_le_bytes,finalize,into,Proof::from_le_bytes; control=; ops=", "calculate_reconnect_proof: calls=Sha1::new,chain_update,as_ref,chain_update,as_le_bytes,chain_update,as_le_bytes,chain_update,as_le_bytes,finalize,Proof::from_le_bytes,into; control=; ops="]]
 
 theorem shapeSrpInternal_ok : Gen.shapeSrpInternal = expected_shapeSrpInternal := by decide +kernel
-
-theorem C01_source_shape_srpinternal : Gen.shapeSrpInternal = expected_shapeSrpInternal := shapeSrpInternal_ok
-theorem C02_source_shape_srpinternal : Gen.shapeSrpInternal = expected_shapeSrpInternal := shapeSrpInternal_ok
-theorem C03_source_shape_srpinternal : Gen.shapeSrpInternal = expected_shapeSrpInternal := shapeSrpInternal_ok
-theorem C13_source_shape_srpinternal : Gen.shapeSrpInternal = expected_shapeSrpInternal := shapeSrpInternal_ok
 
 end WowSrp
